@@ -3,6 +3,7 @@ package props
 import (
 	"fmt"
 	"path/filepath"
+	"sort"
 	"strconv"
 	"strings"
 	"time"
@@ -285,7 +286,7 @@ func runC03(r *core.Run) {
 			ce, cs := g.cond(2)
 			proj := seqInts(1, 4)
 			sel := "*"
-			switch rng.Intn(4) {
+			switch rng.Intn(6) % 5 {
 			case 0:
 				proj = []int{3, 1}
 				sel = "b, t.id"
@@ -294,6 +295,28 @@ func runC03(r *core.Run) {
 			case 2:
 				proj = []int{1, 1, 2, 3, 4}
 				sel = "T.id, t.*"
+			case 3:
+				// any list of columns: repeated, in and out of the table's order (aliases keep the result's names apart)
+				names := []string{"id", "a", "b", "k"}
+				proj = nil
+				var items []string
+				for n := 1 + rng.Intn(5); n > 0; n-- {
+					j := rng.Intn(4)
+					if len(proj) > 0 && rng.Intn(3) == 0 {
+						j = proj[len(proj)-1] - 1
+					}
+					proj = append(proj, j+1)
+					items = append(items, fmt.Sprintf("%s AS c%d", names[j], len(proj)))
+				}
+				if rng.Intn(2) == 0 {
+					// ... in the table's order (a list the projection could serve by moving cells within the record)
+					sort.Ints(proj)
+					items = nil
+					for i, j := range proj {
+						items = append(items, fmt.Sprintf("%s AS c%d", names[j-1], i+1))
+					}
+				}
+				sel = strings.Join(items, ", ")
 			}
 			sql := "SELECT " + sel + " FROM t WHERE " + cs
 			x := newRelRun(r, cpu, t)
@@ -446,6 +469,44 @@ func runC03(r *core.Run) {
 				r.Sample(map[string]interface{}{"sql": evs[len(evs)-1].SQL, "rows": n, "cpu": cpu})
 			}
 		}
+	}
+	// every select list of up to three of the four columns (repeats, any order) over one small table, with and without WHERE:
+	// the select list is a projection, whatever the positions of its items
+	{
+		names := []string{"id", "a", "b", "k"}
+		t := genTable(r, "t", names, []colGen{genID, genNum(3), genText, genInt(5)}, 5)
+		x := newRelRun(r, 1, t)
+		var lists [][]int
+		for a := 1; a <= 4; a++ {
+			lists = append(lists, []int{a})
+			for b := 1; b <= 4; b++ {
+				lists = append(lists, []int{a, b})
+				for c := 1; c <= 4; c++ {
+					lists = append(lists, []int{a, b, c})
+				}
+			}
+		}
+		for li, proj := range lists {
+			var items []string
+			for i, j := range proj {
+				items = append(items, fmt.Sprintf("%s AS c%d", names[j-1], i+1))
+			}
+			sql := "SELECT " + strings.Join(items, ", ") + " FROM t"
+			ce := map[string]interface{}{"k": "true"}
+			if li%2 == 1 {
+				sql += " WHERE id IS NOT NULL"
+			}
+			res, _, e := x.query(sql + ";")
+			if e != "" {
+				fail("select:list", sql, e)
+				continue
+			}
+			rankStrings(t.Rows, res)
+			evs = append(evs, relEvent{SQL: sql, Sig: "select:list", CPU: 1, Ev: map[string]interface{}{"kind": "filter", "in": cellsJSON(t.Rows), "cond": ce, "proj": proj, "res": cellsJSON(res)}})
+			r.Distinct(sql)
+		}
+		x.close()
+		r.Coverage["select_lists_swept"] = len(lists)
 	}
 	reported := map[string]bool{}
 	for _, i := range validateRel(r, evs) {
